@@ -61,6 +61,16 @@ func TestC32(t *testing.T) {
 		if c.I < nSmall {
 			clientID = []string{"cl", "nobody"}[c.I%2]
 		}
+		if c.I >= nSmall && clientID == "cl" && c.I%5 == 0 {
+			// a client ID longer than the 23 characters MQTT-SN recommends (bisquitt-pub/-sub generate such IDs):
+			// the section of the configuration is keyed by the whole ID
+			long := "bisquitt-client-0123456789abcdef"
+			if m, ok := cfg["cl"]; ok {
+				cfg[long] = m
+				delete(cfg, "cl")
+			}
+			clientID = long
+		}
 		// names the application uses: every name of the configuration, a name that is nowhere, some short names
 		nameSet := map[string]bool{"p/none": true, "zz": true}
 		for _, m := range cfg {
